@@ -23,6 +23,26 @@ func main() {
 		os.Exit(runTables(os.Args[2:]))
 	case "corr":
 		os.Exit(runCorr(os.Args[2:]))
+	case "gen":
+		// ggvh gen <dir> <seed> <optsBits> [<n>]: write generated programs (for debugging / replay by hand)
+		var seed uint64
+		var bits, n int
+		fmt.Sscan(os.Args[3], &seed)
+		fmt.Sscan(os.Args[4], &bits)
+		n = 1
+		if len(os.Args) > 5 {
+			fmt.Sscan(os.Args[5], &n)
+		}
+		var specs []genSpec
+		for i := 0; i < n; i++ {
+			o := optsFromBits(bits)
+			o.Root = fmt.Sprintf("k%d", i)
+			specs = append(specs, genSpec{seed + uint64(i), o})
+		}
+		if _, err := writeModule(os.Args[2], specs); err != nil {
+			fmt.Fprintln(os.Stderr, err)
+			os.Exit(1)
+		}
 	default:
 		fmt.Fprintln(os.Stderr, "unknown subcommand", os.Args[1])
 		os.Exit(2)
